@@ -72,7 +72,7 @@ pub async fn take(h: &mut Harness) -> Snapshot {
         }
     }
     if let Ok(pats) = client.get_personal_access_tokens().await {
-        let mut list: Vec<String> = pats.iter().map(|p| format!("{}:{:?}", p.name, p.expiry_at.map(|e| e.as_micros()))).collect();
+        let mut list: Vec<String> = pats.iter().map(|p| format!("{}:{}", p.name, if p.expiry_at.is_some() { "expiring" } else { "never" })).collect();
         list.sort();
         snap.insert("cat/root_pats".into(), list.join(","));
     }
